@@ -7,6 +7,7 @@ CONSTANTS
   MaxLoss = 2
   MaxNegLoss = 3
   MaxRestarts = 1
+  MaxSlow = 0
   PeerModes <- ModesAll
   DenyReplies <- DenyOne
   AckTails <- TailsRssi
